@@ -22,6 +22,9 @@ CHECKS = {
  "C10": dict(tech="TLA+ L1 language machine: scope model (known frames, ambiguity, arity) in Prql.tla; every ill-formed behaviour of PrqlMC replayed; acceptance of an ill-formed program rejected by TLC (PrqlTrace)",
     text="every program the bounded model marks ill-formed (reference to a dropped column, ambiguous bare name after join, arity mismatch) must make prqlc::compile return Err; every well-formed one must compile",
     ref="DESIGN.md section 4 C10"),
+ "C16": dict(tech="TLA+ monitor of RQ well-formedness (Rq.tla: definition-before-use, unique ids, visibility, declaration order, from..select shape, arity); walks of the RQs returned by prqlc::pl_to_rq trace-validated by TLC (RqTrace)",
+    text="trace validation: for every program of the L1 generators (bounded-exhaustive + slot models + random, declared and open schemas), hand-written nested shapes and the repository's queries that the resolver accepts, the walk of the returned RQ must be a behaviour of the monitor whose enabling conditions are the property's invariants",
+    ref="DESIGN.md section 4 C16", note="trusted: TLC; lib/rqwalk.py (projection of the public serde form of RelationalQuery to events; self-tested by breaking each invariant in a recorded walk)"),
  "C17": dict(tech="TLA+ tiling monitor over token streams (Lexer.tla); bounded-exhaustive string space declared to and checked for completeness by TLC (LexerTrace), every lexed string trace-validated",
     text="every string up to the length bound over the 22-symbol lexical alphabet (TLC checks membership, enumeration order and the size of the space, so the exhaustiveness claim is TLC's), plus seeded longer strings; each token stream is validated by the tiling monitor (ordered, non-overlapping, on character boundaries, only inline whitespace between tokens, each slice re-lexes to the same token; rejected sources carry errors and no tokens)",
     ref="DESIGN.md section 4 C17", note="trusted: TLC; pv's recording of spans and of the re-lexed slice (self-tested by corrupting spans on every run); token identity = Debug rendering of TokenKind"),
